@@ -343,11 +343,19 @@ class IMAPConnection:
             last = await updates_task
         except Exception as exc:
             updates_exc = exc
-        if updates_exc:
-            raise updates_exc
-        elif done_exc:
-            raise done_exc
-        elif not ok:
+        try:
+            if updates_exc:
+                raise updates_exc
+            elif done_exc:
+                raise done_exc
+        finally:
+            # The traceback of what is raised refers to this frame. If the
+            # frame refers back to the exception, the connection state - and
+            # with it the selected mailbox - stays alive until the next run
+            # of the garbage collector, and messages delivered meanwhile are
+            # credited to a session that is gone.
+            del updates_exc, done_exc, updates_task, done_task
+        if not ok:
             response = ResponseBad(cmd.tag, b'Expected "DONE".')
         response.add_untagged(*last)
         return response
